@@ -124,15 +124,21 @@ def run(tier: str) -> int:
         for pr in pairs:
             ci, pi = pr["c"] - 1, pr["p"] - 1
             parent = model_with(hint(types[pi]), name="Parent")
-            direct = (ci + pi) % 2 == 0
-            if direct:
+            shape = (ci + pi) % 3
+            if shape == 0:
                 base = parent
             else:   # the overridden field is inherited through an intermediate class that does not touch it
                 _n[0] += 1
                 base = type(MetadataSchema)(f"Middle{_n[0]}", (parent,), {"__annotations__": {"other": Optional[T.Int]}})
             child = model_with(hint(types[ci]), base=base, name="Child")
+            checked = child
+            if shape == 2:
+                # the override is made by an intermediate class; only the leaf below it (which does not touch the
+                # field) is handed to the check, as when only the leaf is a registered plugin
+                _n[0] += 1
+                checked = type(MetadataSchema)(f"Leaf{_n[0]}", (child,), {"__annotations__": {"more": Optional[T.Int]}})
             try:
-                check_types(child)
+                check_types(checked)
                 accepted = True
             except TypeError:
                 accepted = False
@@ -145,7 +151,7 @@ def run(tier: str) -> int:
                     demo = ""
                     if wv is not None:
                         try:
-                            obj = child(f=value(wv))
+                            obj = checked(f=value(wv))
                             try:
                                 parent.parse_raw(bytes(obj))
                                 demo = "(parent parsed the serialised child after all)"
